@@ -19,6 +19,14 @@ SLACK_MS = 120.0
 def run(ctx):
     n = 2000 if ctx.thorough() else 150
     proof_ok, detail = True, {}
+    if ctx.replay:
+        # a replay file names the seed and the scenario; all scenarios are deterministic functions of the seed
+        try:
+            rp = json.load(open(ctx.replay))
+            ctx.seed = int(rp.get("seed", ctx.seed))
+            ctx.log("replaying %s: %s" % (ctx.replay, rp.get("how") or rp.get("broken")))
+        except Exception as e:
+            ctx.log("cannot read replay file: %s" % e)
     ok, out = ctx.regen(["arith", "sendside"])
     if not ok:
         proof_ok = False
@@ -71,16 +79,18 @@ def run(ctx):
         L = float(lv["lifetime_ms"])
         t = lv["opn_at_ms"]
         gaps = [t[i + 1] - t[i] for i in range(len(t) - 1)]
+        stall = lv.get("stall_ms", 0.0)
+        overloaded = stall > 40.0   # the harness process itself was not scheduled for that long: upper bounds are meaningless
         for g in gaps:
             if g < L / 2:
                 report("renewal-before-half-lifetime", "lifetime %.0f ms: two OpenSecureChannel requests only %.1f ms apart" % (L, g),
                        {"observation": lv}, "schedharness c16 live")
-            if g >= L + SLACK_MS:
+            if g >= L + SLACK_MS and not overloaded:
                 report("renewal-not-before-expiry", "lifetime %.0f ms: next OpenSecureChannel request only after %.1f ms" % (L, g),
                        {"observation": lv}, "schedharness c16 live")
-        if lv["duration_ms"] > 1.2 * L and len(t) < 2:
+        if lv["duration_ms"] > 1.2 * L and len(t) < 2 and not overloaded:
             report("token-not-renewed", "lifetime %.0f ms: no renewal within %.0f ms" % (L, lv["duration_ms"]), {"observation": lv}, "schedharness c16 live")
-        if lv["failed"]:
+        if lv["failed"] and not overloaded:
             report("request-failed-around-renewal", "%d of %d requests issued while tokens were renewed failed: %s" % (lv["failed"], lv["requests"], lv["errors"]),
                    {"observation": lv}, "schedharness c16 live")
     # oracle (3): requests around a renewal on a signed channel
@@ -122,6 +132,8 @@ def run(ctx):
         "rule": "renewal delay of the real code (uasc.renewalDelay via hook) for boundary lifetimes (1 ms .. 2^32-1 ms, the old truncation boundaries 1.333 s / 2 s / 2.667 s / 4 s, odd nanosecond values) + seeded random lifetimes, compared with go_renewalDelay inside Coq; live channels with lifetimes 400 ms and 1000 ms renewing for 1.9 s under a continuous request load; the renewal window and a gate-respecting schedule forced on a Basic256Sha256/Sign channel",
         "samples": delays[:2] + [{"live": lv["lifetime_ms"], "opn_at_ms": lv["opn_at_ms"]} for lv in lives] + [{"scenario": c["scenario"], "results": c["results"], "server_errors": c.get("server_errors")} for c in signs],
         "renewal_gaps_ms": gaps_all,
+        "live_runs_overloaded": [lv["lifetime_ms"] for lv in lives if lv.get("stall_ms", 0.0) > 40.0],
+        "max_scheduling_stall_ms": max([lv.get("stall_ms", 0.0) for lv in lives] or [0.0]),
         "requests_during_live_renewals": sum(lv["requests"] for lv in lives),
         "traces_validated_against_impl": len(delays) + len(signs), "model_impl_mismatches": len(mism),
     })
